@@ -157,6 +157,12 @@ def stuck_location(stderr_text: str) -> str | None:
     return None
 
 
+class _AnyCase(dict):
+    """Stand-in case for an observation that belongs to no generated case: every field a caller may look up is None."""
+    def __missing__(self, key):
+        return None
+
+
 def run_cases(task: str, cases, *, workers: int | None = None, deadline_s: float = 60.0,
               hashseed=0, rlimit_as: int | None = None, init: dict | None = None,
               env: dict | None = None, fresh_worker_per_case: bool = False):
@@ -167,10 +173,17 @@ def run_cases(task: str, cases, *, workers: int | None = None, deadline_s: float
     DONE = object()
 
     def feeder():
-        for c in cases:
-            q.put(c)
-        for _ in range(workers):
-            q.put(DONE)
+        # an exception in the case generator must not leave the workers waiting for ever: it becomes a harness error observation
+        # (the run ends INCONCLUSIVE) and the workers are released
+        try:
+            for c in cases:
+                q.put(c)
+        except BaseException as e:
+            import traceback
+            out.put((_AnyCase({"id": -1, "_generator_failed": True, "recipe": _AnyCase({"src": ["none"]})}), {"_harness_error": f"case generator raised {type(e).__name__}: {e}", "_tb": traceback.format_exc()}))
+        finally:
+            for _ in range(workers):
+                q.put(DONE)
 
     def drive():
         w = None
